@@ -255,7 +255,7 @@ def rule_entry(chk, w):
                 elif a[0] == "call" and codec.INT_TO.search(a[1]):
                     ints.append((rbk, defuse.show(a[2][0])))
             if names[v] == "Node":
-                ints.sort(key=lambda x: len([1 for y in ints if wb.dominates(y[0], x[0])]))
+                ints = sorted(ints, key=lambda x, _all=list(ints): len([1 for y in _all if wb.dominates(y[0], x[0])]))
                 wlinks = [s for _b, s in ints]
     # reader: tag -> variant, and which read feeds which link
     rtags, rlinks_ok = {}, None
@@ -588,7 +588,7 @@ def rule_hash(chk, w):
     wr = _calls(b, r"Version::write$")
     okw = False
     if len(wr) == 2:
-        wr.sort(key=lambda x: len([1 for y in wr if b.dominates(y[0], x[0])]))
+        wr = sorted(wr, key=lambda x, _all=list(wr): len([1 for y in _all if b.dominates(y[0], x[0])]))
         a0 = [defuse.show(defuse.strip_refs(du.origin(t.args[0]))) for _bb, t in wr]
         c0 = [defuse.show(du.origin(t.args[1])) for _bb, t in wr]
         okw = a0 == ["arg0", "arg1"] and c0[0] == c0[1] and before(b, (wr[0][0], 0), (wr[1][0], 0))
